@@ -1,4 +1,4 @@
-(* GENEQ lemma=gen_RiscvInstruction_attr_length_eq requires=gen_RiscvInstruction_attr_length properties=C01,C02 *)
+(* GENEQ lemma=gen_RiscvInstruction_attr_length_eq requires=gen_RiscvInstruction_attr_length properties=C01 *)
 From ArchSimGenEq Require Import GenEqTac.
 From ArchSim Require Import Model.RV Model.RVSplit.
 From ArchSimGen Require Import GenRVTypes GenRV.
